@@ -711,6 +711,36 @@ class LeCocBed(Bed):
         return None
 
 
+class LeCocCrossedBed(LeCocBed):
+    """The same, on a channel whose two endpoints have DIFFERENT identifiers (every peer numbers its channels freely;
+    two bumble stacks only agree by accident): the victim opens a channel of its own towards the attacker at the moment
+    the attacker opens the echo channel, so the echo channel is 0x0040 at the attacker and 0x0041 at the victim."""
+
+    name = 'le_coc_crossed'
+    BACK_PSM = 0x0081
+
+    def _open_channel(self):
+        from bumble import l2cap
+
+        self.att_dev.create_l2cap_server(l2cap.LeCreditBasedChannelSpec(psm=self.BACK_PSM, mtu=64, mps=32), lambda ch: None)
+        self.v_chan = None
+        loop = self.world.loop
+        tasks = [
+            loop.create_task(self.a_conn.create_l2cap_channel(l2cap.LeCreditBasedChannelSpec(psm=self.PSM))),
+            loop.create_task(self.v_conn.create_l2cap_channel(l2cap.LeCreditBasedChannelSpec(psm=self.BACK_PSM))),
+        ]
+        loop.run_until(lambda: all(t.done() for t in tasks), horizon=loop.time() + 30.0, max_steps=200000)
+        self.world.settle()
+        ch = tasks[0].result()
+        tasks[1].result()
+        assert self.v_chan is not None
+        self.dyn_cid = ch.destination_cid  # victim's endpoint
+        self.dyn_rx_cid = ch.source_cid  # attacker's endpoint
+        assert self.dyn_cid != self.dyn_rx_cid, (self.dyn_cid, self.dyn_rx_cid)
+        self.v_mtu = self.v_chan.mtu
+        self.v_mps = self.v_chan.mps
+
+
 # ---------------------------------------------------------------------------
 # classic beds
 # ---------------------------------------------------------------------------
@@ -1305,7 +1335,7 @@ class HciClStreamBed(_StreamMixin, HciClBed):
 
 BEDS = {
     b.name: b
-    for b in (AttServerBed, AttClientBed, AttClientPendingBed, SmpBed, LeSigBed, LeCocBed, ClSigBed, SdpBed, RfcommBed, HfpAgBed, HfpHfBed, AvdtpBed, AvctpBed,
+    for b in (AttServerBed, AttClientBed, AttClientPendingBed, SmpBed, LeSigBed, LeCocBed, LeCocCrossedBed, ClSigBed, SdpBed, RfcommBed, HfpAgBed, HfpHfBed, AvdtpBed, AvctpBed,
               HciLeBed, HciClBed, HciLeStreamBed, HciClStreamBed, SdpClientBed)
 }
 
